@@ -24,6 +24,10 @@ type Config struct {
 	DebugPanics  bool
 	Trace        bool
 	QueryTimeoutMs int
+	// ResidentTimeoutMs, if > 0, is the (shorter) per-query timeout of the
+	// resident incremental solver; a query it gives up on is handed to the
+	// one-shot portfolio, which gets the full QueryTimeoutMs.
+	ResidentTimeoutMs int
 	Solver       string
 	Workers      int
 	// Stubs redirects calls: full function name (ssa Function.String()) ->
@@ -131,7 +135,11 @@ func (i *interpreter) posString(pos token.Pos, fr *frame) string {
 func (i *interpreter) step(fr *frame, instr ssa.Instruction) {
 	i.px.steps++
 	if i.px.steps > i.cfg.MaxSteps {
-		panic(budgetExceeded{fmt.Sprintf("more than %d instructions on one path", i.cfg.MaxSteps)})
+		where := fr.fn.String() + " at " + i.posString(instr.Pos(), fr)
+		for c, d := fr.caller, 0; c != nil && d < 6; c, d = c.caller, d+1 {
+			where += " < " + c.fn.String()
+		}
+		panic(budgetExceeded{fmt.Sprintf("more than %d instructions on one path (in %s)", i.cfg.MaxSteps, where)})
 	}
 	if i.cfg.Trace {
 		if v, ok := instr.(ssa.Value); ok {
